@@ -27,11 +27,14 @@ variable {V : Type}
 
 /-- The linking Section shares no child name with its target: resolving the link (a lenient
     merge) never raises, keeps every own child as it is and in place, and appends one copy of
-    every child of the target, in the target's order. The target is an argument: unchanged. -/
+    every child of the target, in the target's order. The target is an argument: unchanged.
+    (`r.eff l.attrs`: the reference with the record flag in force at `l`; it only decides
+    whether the copies carry a `_merged` mark, see `copy_is_faithful`.) -/
 theorem link_adds_only (cv : Conv V) (r : Ref) (l t : Sec V) (hwf : wfSec cv t = true)
     (hnc : noClash l t = true) :
     (merge cv false r l t).2 = .ok ∧
-    (merge cv false r l t).1.secs = l.secs ++ t.secs.map (fun o => cloneMerged (r.child o.name) o) ∧
+    (merge cv false r l t).1.secs =
+      l.secs ++ t.secs.map (fun o => cloneMerged ((r.eff l.attrs).child o.name) o) ∧
     (merge cv false r l t).1.props = l.props ++ t.props ∧
     (merge cv false r l t).1.name = l.name ∧ (merge cv false r l t).1.type = l.type ∧
     (merge cv false r l t).1.attrs.link = l.attrs.link ∧
@@ -39,11 +42,13 @@ theorem link_adds_only (cv : Conv V) (r : Ref) (l t : Sec V) (hwf : wfSec cv t =
   rw [merge_noClash cv r l t hwf hnc]
   exact ⟨rfl, rfl, rfl, rfl, rfl, rfl, rfl⟩
 
-/-- a copy differs from its original only in remembering where it came from -/
+/-- a copy differs from its original only in remembering where it came from (a copy made by a
+    merge that is not recorded - on top of a resolved link, fix dccf4ba - remembers nothing) -/
 theorem copy_is_faithful (r : Ref) (o : Sec V) :
     (cloneMerged r o).props = o.props ∧ (cloneMerged r o).secs = o.secs ∧
-    (cloneMerged r o).attrs = { o.attrs with merged := some r } :=
-  ⟨rfl, rfl, rfl⟩
+    (r.record = true → (cloneMerged r o).attrs = { o.attrs with merged := some r }) ∧
+    (r.record = false → (cloneMerged r o).attrs = { o.attrs with merged := none }) :=
+  ⟨rfl, rfl, fun h => by simp [cloneMerged, Ref.pick, h], fun h => by simp [cloneMerged, Ref.pick, h]⟩
 
 /-- The general case (own children may use names of the target; first sentence of the
     property only): whenever resolving succeeds, every child of the target whose name the
@@ -52,7 +57,8 @@ theorem copy_is_faithful (r : Ref) (o : Sec V) :
 theorem link_adds_only_general (cv : Conv V) (r : Ref) (l t : Sec V) (hwf : wfSec cv t = true)
     (hok : (merge cv false r l t).2 = .ok) :
     (∀ o ∈ t.secs, secNameIn l.secs o.name = false →
-      findSec (merge cv false r l t).1.secs o.name o.type = some (cloneMerged (r.child o.name) o)) ∧
+      findSec (merge cv false r l t).1.secs o.name o.type =
+        some (cloneMerged ((r.eff l.attrs).child o.name) o)) ∧
     (∀ p ∈ t.props, propNameIn l.props p.name = false →
       findProp (merge cv false r l t).1.props p.name = some p) ∧
     (∀ (i : Nat) (c : Sec V), l.secs[i]? = some c → (∀ o ∈ t.secs, ¬ (o.name = c.name ∧ o.type = c.type)) →
@@ -71,14 +77,14 @@ theorem link_adds_only_general (cv : Conv V) (r : Ref) (l t : Sec V) (hwf : wfSe
       have hf : findSec l.secs o.name o.type = none := by
         rw [findSec_none_iff]; intro c hc h
         exact (secNameIn_false_iff _ _).1 hn c hc h.1
-      exact (mergeSecs_result cv false ts r l.secs hw.2.2 hsh.2.1 o ho).2 hf
+      exact (mergeSecs_result cv false ts (r.eff l.attrs) l.secs hw.2.2 hsh.2.1 o ho).2 hf
     · intro p hp hn
       rw [hsh.2.2.2]
       exact (mergeProps_result cv false tp l.props hw.1 hsh.2.2.1 p hp).2
         ((findProp_none_iff _ _).2 hn)
     · intro i c hi hl
       rw [hsh.2.2.2]
-      exact mergeSecs_keeps cv false ts r l.secs i c hi hl
+      exact mergeSecs_keeps cv false ts (r.eff l.attrs) l.secs i c hi hl
     · intro i c hi hl
       rw [hsh.2.2.2]
       exact mergeProps_keeps cv false tp l.props i c hi hl
@@ -101,15 +107,18 @@ theorem unfill_fill (a b : Option Str) : unfill (fillText a b) (recFill a b none
 /-- `unmerge` after resolving (no shared child name), for a linking Section in any state: all
     copies are gone, the own children are as before and in place, the Section is no longer
     merged and nothing is on record any more; link and include are kept; of definition and
-    reference what the merge filled in (or an earlier merge left on record) is taken back. -/
+    reference what is on record as filled in is taken back: what this merge filled in or an
+    earlier merge left on record, or - a merge that is not recorded - only the latter. -/
 theorem unmerge_restores (cv : Conv V) (heq : EqRefl cv) (r : Ref) (l t : Sec V)
     (hwf : wfSec cv t = true) (hnc : noClash l t = true) :
     unmerge cv (merge cv false r l t).1 t =
       .mk { l.attrs with
               definition := unfill (fillText l.attrs.definition t.attrs.definition)
-                                   (recFill l.attrs.definition t.attrs.definition l.attrs.filledDef)
+                ((r.eff l.attrs).pick
+                  (recFill l.attrs.definition t.attrs.definition l.attrs.filledDef) l.attrs.filledDef)
               reference := unfill (fillText l.attrs.reference t.attrs.reference)
-                                  (recFill l.attrs.reference t.attrs.reference l.attrs.filledRef)
+                ((r.eff l.attrs).pick
+                  (recFill l.attrs.reference t.attrs.reference l.attrs.filledRef) l.attrs.filledRef)
               filledDef := none, filledRef := none, merged := none } l.props l.secs := by
   rw [merge_noClash cv r l t hwf hnc]
   have hnc' := (noClash_iff l t).1 hnc
@@ -119,14 +128,15 @@ theorem unmerge_restores (cv : Conv V) (heq : EqRefl cv) (r : Ref) (l t : Sec V)
     simp only [Sec.secs_mk, Sec.props_mk, Sec.attrs_mk] at hnc' ⊢
     unfold unmerge
     simp only [Sec.attrs_mk, Sec.props_mk, Sec.secs_mk]
-    rw [unmergeSecs_clones cv heq r ts l.secs hwf.2.2 hnc'.1,
+    rw [unmergeSecs_clones cv heq (r.eff l.attrs) ts l.secs hwf.2.2 hnc'.1,
         unmergeProps_copies cv heq tp l.props hwf.1 hnc'.2]
 
 /-- The full-strength restoration law for one linking Section: `l` is any Section that is not
-    merged (as built, loaded or cleaned), `t` any target it shares no child name with. -/
+    merged (as built, loaded or cleaned), `t` any target it shares no child name with; the merge
+    is one that is recorded (`r.record`: the setters resolve with `_merge(target, False, True)`). -/
 def Restores (cv : Conv V) : Prop :=
-  ∀ (r : Ref) (l t : Sec V), wfSec cv t = true → noClash l t = true → notMerged l = true →
-    unmerge cv (merge cv false r l t).1 t = l
+  ∀ (r : Ref) (l t : Sec V), r.record = true → wfSec cv t = true → noClash l t = true →
+    notMerged l = true → unmerge cv (merge cv false r l t).1 t = l
 
 theorem notMerged_iff (l : Sec V) :
     notMerged l = true ↔
@@ -140,11 +150,13 @@ theorem notMerged_iff (l : Sec V) :
     the fix of finding `C12/definition-reference-filled-not-restored` this held only where
     nothing was filled: `Link.noFill`.) -/
 theorem clean_after_link (cv : Conv V) (heq : EqRefl cv) (r : Ref) (l t : Sec V)
+    (hr : r.record = true)
     (hwf : wfSec cv t = true) (hnc : noClash l t = true) (hm : notMerged l = true) :
     unmerge cv (merge cv false r l t).1 t = l := by
   rw [unmerge_restores cv heq r l t hwf hnc]
   obtain ⟨h1, h2, h3⟩ := (notMerged_iff l).1 hm
-  rw [h2, h3, unfill_fill, unfill_fill]
+  have he := Ref.eff_record_on r l.attrs hr (resolved_of_not_merged _ h1)
+  rw [Ref.pick_on _ he, Ref.pick_on _ he, h2, h3, unfill_fill, unfill_fill]
   cases l with
   | mk a ps ss =>
     simp only [Sec.attrs_mk, Sec.props_mk, Sec.secs_mk] at h1 h2 h3 ⊢
@@ -152,7 +164,7 @@ theorem clean_after_link (cv : Conv V) (heq : EqRefl cv) (r : Ref) (l t : Sec V)
 
 /-- The restoration law holds of the code, for every value interpretation with `v == v`. -/
 theorem clean_finalize_restores (cv : Conv V) (heq : EqRefl cv) : Restores cv :=
-  fun r l t hwf hnc hm => clean_after_link cv heq r l t hwf hnc hm
+  fun r l t hr hwf hnc hm => clean_after_link cv heq r l t hr hwf hnc hm
 
 theorem eqRefl_convC : EqRefl convC := by
   intro v
@@ -176,7 +188,7 @@ theorem filled_definition_taken_back :
     unmerge convC (merge convC false { url := none, path := [['x']] } wLinker wTarget).1 wTarget
       = wLinker :=
   ⟨by decide, by decide,
-   clean_after_link convC eqRefl_convC _ wLinker wTarget (by decide) (by decide) (by decide)⟩
+   clean_after_link convC eqRefl_convC _ wLinker wTarget rfl (by decide) (by decide) (by decide)⟩
 
 /-- An edit between finalize and clean is not destroyed: a definition / reference that is no
     longer the one `merge` filled in is kept by `unmerge` (any Section `m`, any target). -/
@@ -206,15 +218,17 @@ theorem unmerge_notMerged (cv : Conv V) (m t : Sec V) : notMerged (unmerge cv m 
     the linking Section its own attributes back (name, type, definition, reference, link,
     include); only for the children the restoration law needs `noClash`. -/
 theorem clean_restores_attrs_general (cv : Conv V) (k : Bool) (r : Ref) (l t : Sec V)
+    (hr : r.record = true)
     (hok : (merge cv k r l t).2 = .ok) (hm : notMerged l = true) :
     (unmerge cv (merge cv k r l t).1 t).attrs = l.attrs := by
   have hsh := merge_ok_shape cv k r l t hok
   rw [hsh.2.2.2]
   obtain ⟨h1, h2, h3⟩ := (notMerged_iff l).1 hm
+  have he := Ref.eff_record_on r l.attrs hr (resolved_of_not_merged _ h1)
   cases t with
   | mk ta tp ts =>
     unfold unmerge
-    simp only [Sec.attrs_mk, h2, h3, unfill_fill]
+    simp only [Sec.attrs_mk, Ref.pick_on _ he, h2, h3, unfill_fill]
     cases l with
     | mk a ps ss =>
       simp only [Sec.attrs_mk] at h1 h2 h3 ⊢
@@ -223,11 +237,12 @@ theorem clean_restores_attrs_general (cv : Conv V) (k : Bool) (r : Ref) (l t : S
 /-- Repeated cycles: from any state of the linking Section (merged or not, whatever is on
     record), after one finalize / clean cycle every further cycle restores it exactly. -/
 theorem cycle_stable (cv : Conv V) (heq : EqRefl cv) (r : Ref) (l t : Sec V)
+    (hr : r.record = true)
     (hwf : wfSec cv t = true) (hnc : noClash l t = true) :
     let l1 := unmerge cv (merge cv false r l t).1 t
     unmerge cv (merge cv false r l1 t).1 t = l1 := by
   simp only
-  apply clean_after_link cv heq r _ t hwf
+  apply clean_after_link cv heq r _ t hr hwf
   · rw [unmerge_restores cv heq r l t hwf hnc]
     rw [noClash_iff] at hnc ⊢; exact hnc
   · exact unmerge_notMerged cv _ t
@@ -262,15 +277,18 @@ theorem cleanSec_noLinks (cv : Conv V) (deref : Ref → Option (Sec V)) :
     `_merged` object is looked up, `unmerge` removes the copies, and cleaning the remaining
     (own) children changes nothing. -/
 theorem clean_sec_restores (cv : Conv V) (heq : EqRefl cv) (deref : Ref → Option (Sec V))
-    (n : Nat) (r : Ref) (l t : Sec V) (hwf : wfSec cv t = true) (hnc : noClash l t = true)
+    (n : Nat) (r : Ref) (l t : Sec V) (hr : r.record = true)
+    (hwf : wfSec cv t = true) (hnc : noClash l t = true)
     (hm : notMerged l = true) (hown : noLinksList l.secs = true)
     (hd : deref r = some t) :
     cleanSec cv deref (n + 1) (merge cv false r l t).1 = l := by
   have hmg : (merge cv false r l t).1.attrs.merged = some r := by
-    rw [merge_noClash cv r l t hwf hnc]; rfl
+    rw [merge_noClash cv r l t hwf hnc]
+    exact Ref.pick_on _ (Ref.eff_record_on r l.attrs hr
+      (resolved_of_not_merged _ ((notMerged_iff l).1 hm).1)) _ _
   unfold cleanSec
   simp only [hmg, hd]
-  rw [clean_after_link cv heq r l t hwf hnc hm]
+  rw [clean_after_link cv heq r l t hr hwf hnc hm]
   have : ∀ ls : List (Sec V), noLinksList ls = true → ls.map (cleanSec cv deref n) = ls := by
     intro ls
     induction ls with
